@@ -13,6 +13,10 @@ type xpathImpl struct {
 }
 
 func (xp xpathImpl) resolvePath(seg *xpath.Path, s *Selection) (*Selection, error) {
+	if seg == nil {
+		// the path ended on a container or list item that is there
+		return s, nil
+	}
 	m := meta.Find(s.Meta().(meta.HasDefinitions), seg.Ident)
 	if m == nil {
 		return nil, fmt.Errorf("'%s' not found in xpath", seg.Ident)
@@ -51,6 +55,9 @@ func (xp xpathImpl) resolvePath(seg *xpath.Path, s *Selection) (*Selection, erro
 		return nil, nil
 	}
 	if meta.IsLeaf(m) {
+		if seg.Next != nil {
+			return nil, fmt.Errorf("%w. '%s' is a leaf, the xpath cannot continue below it", fc.BadRequestError, seg.Ident)
+		}
 		if seg.Expr == nil {
 			// no comparison, true when the leaf has a value
 			leaf, err := s.Find(seg.Ident)
